@@ -84,36 +84,76 @@ def run(rep):
     else:
         v = vm[0]
         body = v.body
-        km = [n for n in walk(body) if n.get("k") == "Match" and show(n["scrut"]) == "AsRef::as_ref(key)"]
-        if len(km) != 1:
-            rep.lost("T-SERDE-IN", "T-SERDE-IN/detection-keys", "match on the key")
-        else:
-            arms = km[0]["arms"]
-            names = [const_str(a["pat"]) or ("_" if strip_ref(a["pat"]).get("k") == "Wild" else "?") for a in arms]
-            rep.check(names == ["condition", "_"], "T-SERDE-IN", "T-SERDE-IN/detection-keys", km[0]["sp"], "`condition` is the condition text; every other key is an identifier", str(names))
-            if names == ["condition", "_"]:
-                c = show(arms[0]["body"])
-                rep.check(c == "{if <T>::is_some(expression) {return Result::Err(Error::duplicate_field(\"condition\"))}; expression = Option::Some(MapAccess::next_value(map)?)}", "RAW=PARSED", "RAW=PARSED/condition-arm", arms[0]["sp"],
-                          "the condition value is stored once (duplicate rejected)", c[:120])
-                o = arms[1]["body"]
-                so = show(o)
-                ins = [n for n in walk(o) if call_is(n, "::insert")]
-                vlet = [s for x in walk(o) if x.get("k") == "Block" for s in x["stmts"] if s["k"] == "Let" and s["pat"].get("name") == "v"]
-                ok = len(ins) == 2 and len(vlet) == 1 and show(vlet[0]["init"]) == "MapAccess::next_value(map)?"
-                det = so[:100]
-                if ok:
-                    vid = vlet[0]["pat"]["id"]
-                    a, b = ins
-                    ok = show(a["args"][0]) == "identifiers" and show(b["args"][0]) == "identifiers_raw" and show(a["args"][1]) == show(b["args"][1]) == "ToString::to_string(key)"
-                    pi = [x for x in walk(a["args"][2]) if call_is(x, "parser::parse_identifier")]
-                    ok = ok and len(pi) == 1 and q.var_id(pi[0]["args"][0]) == vid and call_is(peel(b["args"][2]), "Clone::clone") and q.var_id(peel(b["args"][2])["args"][0]) == vid
-                    ok = ok and any(x.get("k") == "Try" for x in walk(a["args"][2]))
-                    det = "%s | %s" % (show(a)[:90], show(b)[:90])
-                rep.check(ok, "RAW=PARSED", "RAW=PARSED/identifier-arm", arms[1]["sp"], "under one key, the parsed identifier and the stored raw YAML come from the same value `v` (stored only if it parses)", det)
-                rep.check("if <K, V, S, A>::contains_key(identifiers, key) {return Result::Err" in so, "RAW=PARSED", "RAW=PARSED/duplicate-identifier", arms[1]["sp"], "a repeated identifier key is an error (so raw and parsed maps have the same keys)", "")
-        lets = {s["pat"].get("name"): s for s in body.get("stmts", []) if s["k"] == "Let" and s["pat"].get("k") == "Bind"}
-        er = lets.get("expression_raw")
-        rep.check(bool(er) and show(er["init"]) == "<T>::ok_or_else(expression, |closure {closure#1}|)?", "RAW=PARSED", "RAW=PARSED/condition-required", er["sp"] if er else v.sp, "expression_raw is the stored condition value (missing => Err)", show(er["init"]) if er else "-")
+        # roles come from the value that is finally built: Detection { expression: E, identifiers: I, expression_raw: R, identifiers_raw: IR }
+        fin0 = body.get("expr")
+        det0 = peel(peel(fin0)["fields"][0]["e"]) if fin0 is not None and facts.adt_is(peel(fin0), "Result", "Ok") else {}
+        role = {f_["name"]: q.var_id(f_["e"]) for f_ in det0.get("fields", [])} if det0.get("k") == "Adt" and det0.get("adt") == "rule::Detection" else {}
+        I_, IR_, R_ = role.get("identifiers"), role.get("identifiers_raw"), role.get("expression_raw")
+        er = None
+        for s_ in body.get("stmts", []):
+            if s_["k"] == "Let" and strip_ref(s_["pat"]).get("k") == "Bind" and strip_ref(s_["pat"])["id"] == R_:
+                er = s_
+        # the key dispatch: which literal names the key is compared with (match arms or == tests)
+        names = []
+        for n in walk(body):
+            if n.get("k") == "Match":
+                for a_ in n["arms"]:
+                    cs = const_str(a_["pat"])
+                    if cs is not None:
+                        names.append(cs)
+            if (call_is(n, "PartialEq::eq") or call_is(n, "PartialEq::ne")) and len(n["args"]) == 2:
+                for x in n["args"]:
+                    if lit(x) and lit(x)[0] == "s":
+                        names.append(lit(x)[1])
+            if n.get("k") == "Binary" and n["op"] in ("Eq", "Ne"):
+                for x in (n["lhs"], n["rhs"]):
+                    if lit(x) and lit(x)[0] == "s":
+                        names.append(lit(x)[1])
+        rep.check(names == ["condition"], "T-SERDE-IN", "T-SERDE-IN/detection-keys", v.sp, "`condition` is the only reserved key: the condition text; every other key is an identifier", str(names))
+        # the condition value: X = Some(map.next_value()?) once, after the duplicate test; R = X.ok_or_else(..)?
+        xinit = peel(er["init"]) if er is not None else {}
+        xarg = peel(xinit["arg"]) if xinit.get("k") == "Try" else {}
+        X_ = q.base_var(xarg["args"][0]) if call_is(xarg, "::ok_or_else") or call_is(xarg, "::ok_or") else None
+        rep.check(X_ is not None, "RAW=PARSED", "RAW=PARSED/condition-required", er["sp"] if er else v.sp, "expression_raw is the stored condition value (missing => Err)", show(er["init"]) if er else "-")
+        xas = [(n, pth) for n, pth in walk_with_path(body) if n.get("k") == "Assign" and q.var_id(n["lhs"]) == X_ and X_ is not None]
+        okx = False
+        detx = "%d assignments" % len(xas)
+        if len(xas) == 1:
+            n, pth = xas[0]
+            rhs = peel(n["rhs"])
+            val = peel(rhs["fields"][0]["e"]) if rhs.get("k") == "Adt" and rhs.get("variant") == "Some" else {}
+            val = peel(val["arg"]) if val.get("k") == "Try" else {}
+            dup = any(e_[0] == "if" and not e_[2] and call_is(peel(e_[1]), "::is_some") and q.base_var(peel(e_[1])["args"][0]) == X_ for e_ in q.context(pth, n))
+            okx = call_is(val, "MapAccess::next_value") and dup
+            detx = show(n)[:100]
+        rep.check(okx, "RAW=PARSED", "RAW=PARSED/condition-arm", v.sp, "the condition value is stored once (a second `condition` key is rejected before it)", detx)
+        # identifiers: insert(I, key, parse_identifier(&V)?) and insert(IR, key, V) for the same key and the same value V = map.next_value()?
+        insI = [(n, pth) for n, pth in walk_with_path(body) if call_is(n, "::insert") and q.base_var(n["args"][0]) == I_ and I_ is not None]
+        insR = [(n, pth) for n, pth in walk_with_path(body) if call_is(n, "::insert") and q.base_var(n["args"][0]) == IR_ and IR_ is not None]
+        oki = False
+        deti = "%d/%d inserts" % (len(insI), len(insR))
+        okdup = False
+        if len(insI) == 1 and len(insR) == 1:
+            (a_, pa), (b_, pb) = insI[0], insR[0]
+
+            def keyvar(x):
+                x = peel(x)
+                while x.get("k") == "Call" and (x.get("fn") or "").endswith(("ToString::to_string", "Clone::clone", "ToOwned::to_owned", "String::from", "From::from", "Into::into")) and x.get("args"):
+                    x = peel(x["args"][0])
+                return q.base_var(x, body)
+            ka, kb = keyvar(a_["args"][1]), keyvar(b_["args"][1])
+            parsed = q.resolve(body, a_["args"][2]) if peel(a_["args"][2]).get("k") == "Var" else peel(a_["args"][2])
+            pi = [x for x in walk(parsed) if call_is(x, "parser::parse_identifier")]
+            rawv = peel(b_["args"][2])
+            rawv = peel(rawv["args"][0]) if call_is(rawv, "Clone::clone") else rawv
+            vid_ = q.var_id(rawv)
+            vinit = q.let_init(body, vid_) if vid_ is not None else None
+            vsrc = peel(peel(vinit)["arg"]) if vinit is not None and peel(vinit).get("k") == "Try" else {}
+            oki = ka is not None and ka == kb and len(pi) == 1 and q.base_var(pi[0]["args"][0], body) == vid_ and call_is(vsrc, "MapAccess::next_value") and any(x.get("k") == "Try" for x in walk(parsed))
+            deti = "%s | %s" % (show(a_)[:90], show(b_)[:90])
+            okdup = any(e_[0] == "if" and not e_[2] and call_is(peel(e_[1]), "::contains_key") and q.base_var(peel(e_[1])["args"][0]) == I_ and keyvar(peel(e_[1])["args"][1]) == ka for e_ in q.context(pa, a_))
+        rep.check(oki, "RAW=PARSED", "RAW=PARSED/identifier-arm", v.sp, "under one key, the parsed identifier and the stored raw YAML come from the same value (stored only if it parses)", deti)
+        rep.check(okdup, "RAW=PARSED", "RAW=PARSED/duplicate-identifier", v.sp, "a repeated identifier key is an error (so raw and parsed maps have the same keys)", "")
         # the one tokenise call reads expression_raw; the let it initialises is the token vector; the one parse call reads that
         # vector; the let it initialises is the expression stored in Detection (each failure is an Err, by any spelling)
         def let_holding(call):
@@ -135,13 +175,17 @@ def run(rep):
             if d.get("k") == "Adt" and d["adt"] == "rule::Detection":
                 fm = {f["name"]: f["e"] for f in d["fields"]}
                 ids = {k: q.var_id(e) for k, e in fm.items()}
-                want = {"expression": ex[0]["pat"]["id"] if ex else None, "identifiers": lets["identifiers"]["pat"]["id"] if "identifiers" in lets else None,
-                        "expression_raw": er["pat"]["id"] if er else None, "identifiers_raw": lets["identifiers_raw"]["pat"]["id"] if "identifiers_raw" in lets else None}
-                okf = ids == want and None not in ids.values()
+                # expression = the parsed tokens; expression_raw = the stored condition text; identifiers / identifiers_raw = the two maps the
+                # identifier branch inserts into (checked above), each created empty
+                def empty_map(vid_):
+                    init_ = q.let_init(body, vid_) if vid_ is not None else None
+                    return init_ is not None and call_is(peel(init_), "::new") and "HashMap" in str(peel(init_).get("ty", ""))
+                okf = None not in ids.values() and bool(ex) and ids.get("expression") == strip_ref(ex[0]["pat"]).get("id") and bool(er) and ids.get("expression_raw") == strip_ref(er["pat"]).get("id") \
+                    and empty_map(ids.get("identifiers")) and empty_map(ids.get("identifiers_raw")) and ids.get("identifiers") != ids.get("identifiers_raw")
         rep.check(okf, "RAW=PARSED", "RAW=PARSED/detection-fields", v.sp, "Detection is built from exactly these four variables (raw parts beside their parsed forms)", det)
         # nothing mutates the raw strings between storing and building
-        muts = [show(n)[:50] for n in walk(body) if n.get("k") == "Call" and n.get("args") and show(n["args"][0]) in ("expression_raw", "identifiers_raw") and peel(n["args"][0]) is not n["args"][0] and n["args"][0].get("k") == "Borrow" and n["args"][0].get("mut")]
-        muts = [m for m in muts if "insert(identifiers_raw" not in m]
+        muts = [show(n)[:50] for n in walk(body) if n.get("k") == "Call" and n.get("args") and q.base_var(n["args"][0]) in (R_, IR_) and R_ is not None and peel(n["args"][0]) is not n["args"][0] and n["args"][0].get("k") == "Borrow" and n["args"][0].get("mut")]
+        muts = [m for m in muts if "::insert(" not in m]
         rep.check(not muts, "RAW=PARSED", "RAW=PARSED/no-mutation", v.sp, "the raw parts are not modified after they are read", str(muts))
     # ---- entry points
     for nm, want in (("rule::Rule::from_str", ("serde_yaml::from_str", "s")), ("rule::Rule::from_value", ("serde_yaml::from_value", "value"))):
